@@ -1498,8 +1498,10 @@ fn calculate_stableswap_d(
     // Calculate ann = amp * n_coins
     let ann = calculate_ann(amp, n_coins)?;
 
-    // Use newton_raphson_iterate for the approximation
-    let precision_threshold = Decimal256::one();
+    // Use newton_raphson_iterate for the approximation. Iterate until two successive values differ
+    // by at most one smallest unit at the highest precision among the pool assets.
+    let max_precision = *pool_info.asset_decimals.iter().max().unwrap();
+    let precision_threshold = Decimal256::decimal_with_precision(1u128, max_precision)?;
 
     newton_raphson_iterate(
         sum_pools,
